@@ -831,7 +831,10 @@ def check_history(hist, pass_index=None):
                     counts[v] = counts.get(v, 0) + 1
                 for n, v in vals.items():
                     w = by_value.get(v) if v is not None else None
-                    if w is not None and counts[v] == 1 and str(w["node"]) == n:
+                    if w is not None and counts[v] == 1 and str(w["node"]) == n and w.get("res") != "ok":
+                        # the value of a publish that was NOT acknowledged, served only by the node it was sent through: a
+                        # provisional value that was never taken back. (A node that still serves an ACKNOWLEDGED older value
+                        # simply did not apply later entries: that is plain divergence, class "content".)
                         ab, held, ld = acker_of(hist, w)
                         if ld is not None and str(ld) != n:
                             cls = "temporary-value-stuck-on-routing-follower"
